@@ -27,6 +27,11 @@ reference tables), which are folded.
   path gives a trace of events (availability checks, reads, appended terms, raise) - the rules are phrased on these
   traces, so an elif chain, a lookup table, `match`, a helper returning the byte, `for c in it` or
   `while it.has_next(): c = next(it)` are all the same thing.  Nested loops are not unrolled (undecided).
+  A decoder that reads the iterator's cursor directly (`it.index < len(text) - 1` instead of `it.has_next()`) is the same thing too:
+  the iterator's own has_next(n) is read off its syntax tree as `<cursor> + n <= len(<buffer>)`, the cursor at a point of the iteration
+  is the term CUR0 + <characters consumed so far>, len(<buffer>) / len(<the text the iterator was constructed from>) is the symbol LEN,
+  and a comparison of two such linear terms is normalised to "CUR0 + A <= LEN" - an availability check for a definite number A of
+  characters (lemma L14), recorded as the same event a has_next() call gives.  `==` / `!=` on the cursor are not modelled (undecided).
   The hex digits of an escape that are looked up in a constant table of the module (`TABLE[pair]`, `TABLE.get(pair)`,
   `pair in TABLE`, `DIGITS.index(digit)`) are judged by folding the table (a comprehension over constants is a constant)
   and comparing it completely with the reference table of hex spellings: both cases of a-f, unless the code normalised
@@ -105,8 +110,19 @@ R2 (decoder)  1, 2 (has_next() / data-dependent tests fork the path; tests on un
               from 0x80 on).  The low pair of an escape and the code of a character both range over 0..255, so latin-1 over such a code
               is that byte and utf-8 / ascii are not (other codecs: undecided); ord(chr(n)) == n (L3).
               Quote stripping and the `& 0xFF` mask: 1, 3 (definitions inlined, slice/strip layers compared structurally).
+              The cursor read directly: 1 (has_next() / the stores to the cursor / the constructor's buffer assignment matched on the
+              syntax tree of the StringIterator class), 3 + 4 (linear terms a * CUR0 + b * LEN + k over two symbols; lemma L14: for
+              integers CUR0 + k < LEN <=> CUR0 + (k + 1) <= LEN, x >= y <=> not x < y, and CUR0 + A <= LEN is has_next(A - <consumed>)
+              by the iterator's own definition; a list comprehension over a sequence without a filter has the length of the sequence).
 R3            5 (the escape letters CPython's repr(bytes) and the encoder can emit - a reference vocabulary - looked up
               in the case split of R2).
+R6 (private   1 (the accumulator is located by role: the receiver of the append / extend / += events of the decoding loop; its definitions
+ accumulator) are followed through local copies, parameter defaults and module-level bindings and classified on their syntax: created by the
+              call / immutable constant / object that outlives the call / unknown), 2 (CFG: an emptying statement - X.clear(), del X[:],
+              X[:] = [] - dominates the loop, or lies in a `finally` covering it; otherwise graph reachability from an appending statement
+              to an explicit `raise` / `return` / the end of the function avoiding every emptying statement, on the engine's CFG with the
+              exits of `try` statements made precise and its implicit-exception edges removed).  A shared accumulator that an explicit
+              exit leaves non-empty is violated; one that only an implicit exception could leave non-empty is undecided.
 R5 (around    1, 2 (paths pruned by the named assumption "the argument is a STRING token"; `<constant> in <text>` tests fork and
  the loop)    are kept as path facts; other tests are followed both ways and mark the path guessed -> undecided), 3 (per-path terms
               over the symbolic text of the literal for the iterator's argument and for values returned before the loop), 6 (a
@@ -132,7 +148,8 @@ import ast
 import operator
 
 from csverif import tables
-from csverif.astutil import assignments_to, bind_args, body_walk, dotted, params, src, statements
+from csverif.astutil import assignments_to, bind_args, body_walk, dotted, param_defaults, params, src, statements
+from csverif.cfg import EXIT, RAISE
 from csverif.grammar import Grammar
 from csverif.q import FuncView, inline, raise_class
 
@@ -1708,6 +1725,107 @@ def _char(pos):
     return _Sym("char", (pos,), "str")
 
 
+def _lin(v):
+    """(a, b, k) of the linear term a * CUR0 + b * LEN + k (an int constant is (0, 0, k)); None for anything else."""
+    if isinstance(v, _Sym) and v.tag == "lin":
+        return v.args
+    if isinstance(v, int) and not isinstance(v, bool):
+        return (0, 0, v)
+    return None
+
+
+def _self_attr(node, self_name):
+    return node.attr if isinstance(node, ast.Attribute) and isinstance(node.value, ast.Name) and node.value.id == self_name else None
+
+
+def _iter_model(ctx):
+    """What the StringIterator's own methods say about its state, read off their syntax trees (nothing is run):
+
+    * has_next(n) is `self.<cursor> + n <= len(self.<buffer>)` (either operand order / mirrored comparison) - this names the cursor and
+      the buffer attribute and IS the meaning of an availability check;
+    * every store to the cursor in the class is `= 0` or `+= <a parameter or a positive constant>` (it only moves forward, by what
+      the reading methods consume);
+    * `same_length`: the constructor stores one buffer entry per character of its argument (a comprehension over the argument
+      without a filter, `list(arg)` or the argument itself), so len(<argument>) is the number of characters the iterator holds.
+
+    Returns {"cursor", "buffer", "same_length"} or None when has_next() has another shape (then a direct read of the iterator's
+    members is not modelled: undecided, as before)."""
+    hit = ctx.__dict__.get("_c12_itmodel", _NOHOOK)
+    if hit is not _NOHOOK:
+        return hit
+    try:
+        m = _build_iter_model(ctx)
+    except Exception:
+        m = None
+    ctx.__dict__["_c12_itmodel"] = m
+    return m
+
+
+def _build_iter_model(ctx):
+    repo = ctx.repo
+    if not (repo.has_func(_IT_CLS + ".has_next") and repo.has_func(_IT_CLS + ".__init__")):
+        return None
+    has = repo.func(_IT_CLS + ".has_next").node
+    ps = params(has)
+    body = [st for st in has.body if not isinstance(st, ast.Pass)]
+    if len(ps) != 2 or len(body) != 1 or not isinstance(body[0], ast.Return) or not isinstance(body[0].value, ast.Compare) or len(body[0].value.ops) != 1:
+        return None
+    me, count = ps
+    cmp_ = body[0].value
+    lo, hi = cmp_.left, cmp_.comparators[0]
+    if isinstance(cmp_.ops[0], ast.GtE):
+        lo, hi = hi, lo
+    elif not isinstance(cmp_.ops[0], ast.LtE):
+        return None
+    if not (isinstance(lo, ast.BinOp) and isinstance(lo.op, ast.Add)):
+        return None
+    cursor = None
+    for x, y in ((lo.left, lo.right), (lo.right, lo.left)):
+        if _self_attr(x, me) and isinstance(y, ast.Name) and y.id == count:
+            cursor = _self_attr(x, me)
+    if not (isinstance(hi, ast.Call) and dotted(hi.func) == "len" and len(hi.args) == 1 and not hi.keywords):
+        return None
+    buffer = _self_attr(hi.args[0], me)
+    if cursor is None or buffer is None or cursor == buffer:
+        return None
+    same_length = False
+    for f in repo.methods(_IT_CLS):
+        fps = params(f.node)
+        if not fps:
+            return None
+        for st in statements(f.node):
+            targets = st.targets if isinstance(st, ast.Assign) else [st.target] if isinstance(st, (ast.AnnAssign, ast.AugAssign)) else []
+            for t in targets:
+                for n in ast.walk(t):
+                    attr = _self_attr(n, fps[0])
+                    if attr == cursor:
+                        if n is not t:
+                            return None
+                        if isinstance(st, ast.AugAssign):
+                            v = st.value
+                            if not (isinstance(st.op, ast.Add) and ((isinstance(v, ast.Name) and v.id in fps[1:]) or (isinstance(v, ast.Constant) and type(v.value) is int and v.value > 0))):
+                                return None
+                        elif not (isinstance(st.value, ast.Constant) and type(st.value.value) is int and st.value.value == 0):
+                            return None
+                    elif attr == buffer:
+                        if n is not t or isinstance(st, ast.AugAssign) or f.qualname.split(".")[-1] != "__init__" or len(fps) != 2:
+                            return None
+                        v = st.value
+                        arg = fps[1]
+                        if isinstance(v, ast.Name) and v.id == arg:
+                            same_length = True
+                        elif isinstance(v, ast.Call) and dotted(v.func) == "list" and len(v.args) == 1 and not v.keywords and isinstance(v.args[0], ast.Name) and v.args[0].id == arg:
+                            same_length = True
+                        elif isinstance(v, ast.ListComp) and len(v.generators) == 1 and not v.generators[0].ifs and not v.generators[0].is_async \
+                                and isinstance(v.generators[0].iter, ast.Name) and v.generators[0].iter.id == arg:
+                            same_length = True
+                        else:
+                            same_length = False
+        # a method that hands `self.<buffer>` to a mutating call is not looked for: the walker's iterator protocol does not
+        # model such a method either
+    return {"cursor": cursor, "buffer": buffer, "same_length": same_length}
+
+
 class _Dec(_Interp):
     """One iteration of the decoding loop, analysed ONCE: the iterator is abstract and the characters it delivers are symbolic.
 
@@ -1735,6 +1853,7 @@ class _Dec(_Interp):
         self.loop_assigned = shared["assigned"]
         self.pre = shared["pre"]
         self.params = set(params(f.node))
+        self.itm = _iter_model(ctx)  # what the iterator's own has_next() says about its cursor / buffer attributes (None: not understood)
 
     # ---------------------------------------------------------------- names defined before the loop
     def free_name(self, name):
@@ -1758,6 +1877,8 @@ class _Dec(_Interp):
                 self._busy.discard(name)
             if len(self.events) != n_ev or len(self.o.taken) != n_dec:
                 raise _Unsupported("the iterator is used before the decoding loop")
+            if isinstance(v, _Sym) and v.tag == "lin" and v.args[0] != 0:
+                raise _Unsupported("the iterator's cursor is read before the decoding loop")
             if isinstance(v, (list, bytearray)) or (accumulator and isinstance(v, (bytes, str))):
                 v = _Sym("buf", (name,))  # the output accumulator: only what is added to it matters
             elif accumulator:
@@ -1846,6 +1967,13 @@ class _Dec(_Interp):
                 return bool(_CMPOPS[type(op)](a, b))
             except Exception:
                 return _Sym("unk", ("cmp",))
+        if any(isinstance(x, _Sym) and x.tag == "lin" for x in (a, b)):
+            la, lb = _lin(a), _lin(b)
+            if la is not None and lb is not None:
+                r = self.cursor_test(op, tuple(x - y for x, y in zip(la, lb)))
+                if r is not None:
+                    return r
+            return _Sym("unk", ("cmp",))
         if isinstance(op, (ast.Eq, ast.NotEq)):
             for x, y in ((a, b), (b, a)):
                 t = self._char_test(x, y)
@@ -1887,6 +2015,75 @@ class _Dec(_Interp):
         self.events.append(("check", p, n, out))
         return out
 
+    # ---------------------------------------------------------------- the cursor read directly (instead of has_next)
+    def ev_Attribute(self, e):
+        """`it.<cursor>` / `it.<buffer>` read directly: kept as linear terms over the two symbols CUR0 (the cursor when the
+        iteration starts) and LEN (the number of characters) - lemma L14; any other member of the iterator is not modelled."""
+        v = self.ev(e.value)
+        if v is _ITER and self.itm is not None and isinstance(e.ctx, ast.Load):
+            if e.attr == self.itm["cursor"]:
+                return _Sym("lin", (1, 0, self.pos), "int")  # the cursor is CUR0 + <characters consumed so far in this iteration>
+            if e.attr == self.itm["buffer"]:
+                return _Sym("itbuf", (_ITER,))  # only len() of it is modelled (mentions the iterator: any other use is refused)
+        self.escapes([v])
+        return self.unk(e)
+
+    def is_ctor_arg(self, node) -> bool:
+        """`node` is the text the iterator was constructed from (compared after substituting single-definition temporaries)."""
+        if self.itm is None or not self.itm["same_length"]:
+            return False
+        if "ctor_arg" not in self.shared:
+            self.shared["ctor_arg"] = None
+            calls = [c for c in body_walk(self.f.node) if isinstance(c, ast.Call) and self.is_iter_ctor(c)]
+            init = self.ctx.repo.func(self.it_cls + ".__init__") if self.ctx.repo.has_func(self.it_cls + ".__init__") else None
+            if len(calls) == 1 and init is not None:
+                b = bind_args(calls[0], init.node, skip_self=True)
+                if len(b) == 1 and list(b.values())[0] is not None:
+                    self.shared["ctor_arg"] = self._stable_src(list(b.values())[0])
+        want = self.shared["ctor_arg"]
+        return want is not None and self._stable_src(node) == want
+
+    def _stable_src(self, node):
+        """Normalised text of `node` with single-definition temporaries substituted; None when a name in it is bound more than once
+        in the function (the two occurrences compared could then see different values)."""
+        x = inline(self.f.node, node)
+        for n in ast.walk(x):
+            if isinstance(n, ast.Name) and n.id not in self.params and len(assignments_to(self.f.node, n.id)) > 1:
+                return None
+        return src(x)
+
+    def cursor_test(self, op, d):
+        """Outcome of `<linear term> op <linear term>` with d = left - right = a * CUR0 + b * LEN + k.
+
+        Lemma L14 (integers): the iterator's own has_next(n) is `cursor + n <= len(buffer)` (read off its syntax tree, `_iter_model`),
+        so CUR0 + A <= LEN is exactly "A characters are available from the start of the iteration" - the same availability event a
+        has_next() call gives at the current offset: CUR0 + k < LEN  <=>  CUR0 + (k + 1) <= LEN;  x >= y  <=>  not x < y."""
+        flip = {ast.Lt: ast.Gt, ast.Gt: ast.Lt, ast.LtE: ast.GtE, ast.GtE: ast.LtE}
+        if type(op) not in flip:
+            return None  # == / != on the cursor: equivalent to an availability test only under an invariant that is not established
+        a, b, k = d
+        kind = type(op)
+        if (a, b) == (-1, 1):
+            a, b, k, kind = 1, -1, -k, flip[kind]
+        if (a, b) != (1, -1):
+            return None
+        if kind is ast.Lt:
+            return self.available(k + 1)
+        if kind is ast.LtE:
+            return self.available(k)
+        if kind is ast.GtE:
+            return not self.available(k + 1)
+        return not self.available(k)
+
+    def available(self, upto) -> bool:
+        """CUR0 + upto <= LEN: `upto` characters are available counted from the start of the iteration."""
+        n = upto - self.pos
+        if n < 0:
+            if upto <= self.avail:
+                return True
+            raise _Unsupported("a cursor comparison about characters that were already consumed")
+        return self.check(n)
+
     def is_iter_ctor(self, e) -> bool:
         try:
             c = self.ctx.rs.resolve_call(self.f, e)
@@ -1927,6 +2124,7 @@ class _Dec(_Interp):
             if isinstance(recv, _Sym) and recv.tag in ("buf", "unk") and fn.attr in ("append", "extend") and len(e.args) == 1 and not e.keywords and isinstance(fn.value, ast.Name):
                 v = self.ev(e.args[0])
                 self.escapes([v])
+                self.shared.setdefault("receivers", set()).add(fn.value.id)  # the accumulator, located by role (R6)
                 if fn.attr == "append":
                     self.events.append(("append", v))
                 else:
@@ -1973,6 +2171,8 @@ class _Dec(_Interp):
     def augassign(self, st, cur, rhs):
         if isinstance(st.op, ast.Add) and isinstance(cur, _Sym) and cur.tag in ("buf", "unk") and (isinstance(rhs, (list, tuple, bytes)) or isinstance(rhs, _Sym) and rhs.tag in ("bytesof", "encchr")):
             self.extend(rhs)
+            if isinstance(st.target, ast.Name):
+                self.shared.setdefault("receivers", set()).add(st.target.id)
             return cur
         if isinstance(cur, _Sym) and cur.tag == "buf":
             raise _Unsupported("output buffer updated in a way the interpreter does not model")
@@ -2112,6 +2312,11 @@ class _Dec(_Interp):
         return None if name is None else _Sym("encchr", (code, name))
 
     def sym_function(self, e, name, args, kws):
+        if name == "len" and len(args) == 1 and not kws and len(e.args) == 1:
+            # the number of characters the iterator holds: len(it.<buffer>), or len(<the text it was constructed from>) when the
+            # constructor keeps one entry per character (`_iter_model`)
+            if (isinstance(args[0], _Sym) and args[0].tag == "itbuf") or (isinstance(args[0], _Sym) and args[0].tag == "unk" and self.is_ctor_arg(e.args[0])):
+                return _Sym("lin", (0, 1, 0), "int")
         if name == "bytes" and len(args) == 2 and not kws:  # bytes(<one character>, codec) == <one character>.encode(codec)
             r = self.encoded_char(args[0], [args[1]], {})
             if r is not None:
@@ -2144,6 +2349,13 @@ class _Dec(_Interp):
         if isinstance(e.op, ast.Add) and all(isinstance(x, _Sym) and x.tag == "digits" for x in (a, b)) and a.typ == b.typ and a.args[1:] == b.args[1:]:
             return _Sym("digits", (a.args[0] + b.args[0],) + a.args[1:], a.typ)
         a, b = self.resolve(a), self.resolve(b)
+        if any(isinstance(x, _Sym) and x.tag == "lin" for x in (a, b)):
+            la, lb = _lin(a), _lin(b)
+            if la is not None and lb is not None and isinstance(e.op, (ast.Add, ast.Sub)):
+                sign = 1 if isinstance(e.op, ast.Add) else -1
+                r = tuple(x + sign * y for x, y in zip(la, lb))
+                return r[2] if r[:2] == (0, 0) else _Sym("lin", r, "int")
+            return _NOHOOK
         # lemma L9 (positional notation): int(A, 16) * 16**len(B) + int(B, 16) == int(A + B, 16); `<< 4*len(B)` is that product and
         # `|` equals `+` here because int(B, 16) < 16**len(B) while the low 4*len(B) bits of the scaled value are clear
         for x, y in ((a, b), (b, a)):
@@ -2320,7 +2532,8 @@ class _Decoder:
 
     @staticmethod
     def _acts(p) -> bool:
-        return bool(p.appends() or p.end == "raise" or any(pos >= 2 for _, pos, _ in p.reads()) or any(pos + n > 2 for _, pos, n, _ in p.checks()))
+        # (an availability test made before the escape letter is read cannot depend on the letter: it is not an action of the case)
+        return bool(p.appends() or p.end == "raise" or any(pos >= 2 for _, pos, _ in p.reads()) or any(pos >= 2 and pos + n > 2 for _, pos, n, _ in p.checks()))
 
     def handled(self, letter) -> bool:
         """The decoder does something for backslash + letter (anything but silently dropping the two characters)."""
@@ -2485,11 +2698,15 @@ def r2(ctx):
                 bad, und = [], []
                 for p in paths:
                     apps = [_case_value(a, 1, letter) for a in p.appends()]
+                    demands = [pos + n - 2 for _, pos, n, out in p.checks() if pos + n > 2 and out]
                     extra = [1 for _, pos, _ in p.reads() if pos >= 2] + [1 for _, pos, n, _ in p.checks() if pos + n > 2]
                     if p.end in ("end", "continue") and not extra and len(apps) == 1 and not isinstance(apps[0], (_Sym, bool)) and apps[0] == byte:
                         continue
                     if p.guessed or any(_is_unknown(a) for a in apps):
                         und.append(f"\\{letter}: a path depends on a condition/value that is not understood (appends {apps})")
+                    elif extra and demands and len(demands) == len(extra):
+                        bad.append(f"\\{letter} is only decoded when {max(demands)} more character(s) are available after the escape letter (the two-character escape at the "
+                                   f"very end of a literal is not decoded)")
                     elif extra:
                         bad.append(f"\\{letter} consumes or demands characters after the escape letter")
                     elif p.end not in ("end", "continue"):
@@ -2691,6 +2908,269 @@ def r3(ctx):
     emitted = {"x", "n", "r", "t", "\\", "'", '"'}
     miss = sorted(ch for ch in emitted if not d.handled(ch))
     ctx.ob("R3", "VOCAB", d.f, "encoder output accepted", not miss, f"escape letters value_to_string can emit (\\xHH \\n \\r \\t \\\\ \\' \\\") not handled by the decoder: {miss}")
+
+
+# ============================================================================================ the accumulator is private to the call
+_IMMUTABLE_CTORS = {"bytes", "str", "tuple", "frozenset", "int"}
+
+
+def _storage(ctx, f, e, names, depth=0):
+    """Where the object the expression `e` (in function `f`) evaluates to lives - decided on the syntax of its definitions:
+    [("fresh" | "immutable" | "shared" | "unknown", description)], one entry per definition that may flow into it.
+
+    fresh      a display / comprehension / arithmetic result / call result: created by this evaluation, nobody else holds it
+               (named assumption: a constructor or library call returns a new object; a call of a package function is `unknown`);
+    immutable  a constant: cannot be modified in place, `x += ..` rebinds the local name;
+    shared     an object bound at module level (or an attribute / element of one, or a mutable parameter default - evaluated once
+               when the `def` runs): it outlives the call and every call sees the same object;
+    unknown    a parameter supplied by the caller, an imported name, anything else.
+    `names` collects the names the object is reachable through in `f` (the local aliases and the module-level name)."""
+    if depth > 8:
+        return [("unknown", src(e)[:40])]
+    if isinstance(e, ast.Constant):
+        return [("immutable", src(e)[:40])]
+    if isinstance(e, ast.Tuple):
+        return [("immutable", "a tuple")]
+    if isinstance(e, (ast.List, ast.Dict, ast.Set, ast.ListComp, ast.SetComp, ast.DictComp, ast.GeneratorExp, ast.JoinedStr, ast.BinOp, ast.UnaryOp, ast.Compare)):
+        return [("fresh", src(e)[:40])]
+    if isinstance(e, ast.IfExp):
+        return _storage(ctx, f, e.body, names, depth + 1) + _storage(ctx, f, e.orelse, names, depth + 1)
+    if isinstance(e, ast.BoolOp):
+        return [x for v in e.values for x in _storage(ctx, f, v, names, depth + 1)]
+    if isinstance(e, ast.NamedExpr):
+        return _storage(ctx, f, e.value, names, depth + 1)
+    if isinstance(e, ast.Call):
+        try:
+            c = ctx.rs.resolve_call(f, e)
+        except Exception:
+            c = None
+        if c is not None and getattr(c, "kind", None) == "func":
+            return [("unknown", f"the result of {src(e.func)[:40]}()")]
+        return [("fresh", src(e)[:40])]
+    mod = f.module
+    local = set(params(f.node))
+    for st in statements(f.node):
+        for n in ast.walk(st):
+            if isinstance(n, ast.Name) and isinstance(n.ctx, ast.Store):
+                local.add(n.id)
+    declared_global = {g for st in statements(f.node) if isinstance(st, ast.Global) for g in st.names}
+    local -= declared_global
+    if isinstance(e, ast.Name):
+        if e.id in local:
+            names.add(e.id)
+            out = []
+            if e.id in params(f.node):
+                dflt = param_defaults(f.node).get(e.id)
+                if dflt is None or (isinstance(dflt, ast.Constant) and dflt.value is None):
+                    out.append(("unknown", f"the argument `{e.id}` of the caller"))
+                else:
+                    for k, what in _storage(ctx, f, dflt, set(), depth + 1):
+                        out.append(("shared", f"the default value `{src(dflt)[:30]}` of parameter `{e.id}` (evaluated once, when the function is defined)") if k == "fresh" else (k, what))
+            for _st, v in assignments_to(f.node, e.id):
+                if v is None:
+                    continue
+                out.extend(_storage(ctx, f, v, names, depth + 1))
+            return out or [("unknown", e.id)]
+        if e.id in mod.consts:
+            names.add(e.id)
+            v = mod.consts[e.id]
+            if isinstance(v, ast.Constant) or (isinstance(v, ast.Tuple) and all(isinstance(x, ast.Constant) for x in v.elts)) \
+                    or (isinstance(v, ast.Call) and dotted(v.func) in _IMMUTABLE_CTORS):
+                return [("immutable", f"the module-level constant `{e.id}`")]
+            return [("shared", f"the module-level object `{e.id} = {src(v)[:40]}`")]
+        if e.id in mod.funcs or e.id in mod.classes:
+            return [("shared", f"the module-level definition `{e.id}`")]
+        return [("unknown", f"the name `{e.id}`")]
+    if isinstance(e, (ast.Attribute, ast.Subscript)):
+        root = e
+        while isinstance(root, (ast.Attribute, ast.Subscript)):
+            root = root.value
+        if isinstance(root, ast.Name) and root.id not in local and (root.id in mod.consts or root.id in mod.funcs or root.id in mod.classes):
+            return [("shared", f"`{src(e)[:40]}`, part of the module-level object `{root.id}`")]
+        return [("unknown", f"`{src(e)[:40]}`")]
+    return [("unknown", src(e)[:40])]
+
+
+def _empties(st, names) -> bool:
+    """`st` leaves the object held by one of `names` empty: X.clear(), del X[:], X[:] = <empty display / constant>."""
+    def full_slice(t):
+        return isinstance(t, ast.Subscript) and isinstance(t.value, ast.Name) and t.value.id in names and isinstance(t.slice, ast.Slice) \
+            and t.slice.lower is None and t.slice.upper is None and t.slice.step is None
+
+    if isinstance(st, ast.Expr) and isinstance(st.value, ast.Call) and isinstance(st.value.func, ast.Attribute) and st.value.func.attr == "clear" \
+            and isinstance(st.value.func.value, ast.Name) and st.value.func.value.id in names and not st.value.args and not st.value.keywords:
+        return True
+    if isinstance(st, ast.Delete) and len(st.targets) == 1 and full_slice(st.targets[0]):
+        return True
+    if isinstance(st, ast.Assign) and len(st.targets) == 1 and full_slice(st.targets[0]):
+        v = st.value
+        return (isinstance(v, (ast.List, ast.Tuple)) and not v.elts) or (isinstance(v, ast.Constant) and v.value in (b"", ""))
+    return False
+
+
+def _exit_graph(cfg, fv, exits):
+    """The control-flow graph with the ways out of a `try` made precise (the engine's graph also gives every `raise` / `return` inside
+    a try statement a direct edge to the function's exit, which is right for dominance questions but not for "is this statement
+    passed on the way out"): a `return` / `raise` in the body, a handler or the else-branch of a try with a `finally` leaves through that
+    finally block; a `raise` in the body of a try whose handlers catch its class (a bare except, the same name, or a builtin
+    superclass) goes to the handlers only."""
+    import builtins
+
+    g = cfg.g.copy()
+
+    def catches(h, exc):
+        if h.type is None:
+            return True
+        for n in (h.type.elts if isinstance(h.type, ast.Tuple) else [h.type]):
+            name = (dotted(n) or "?").split(".")[-1]
+            if exc is not None and name == exc.split(".")[-1]:
+                return True
+            a, b = getattr(builtins, (exc or "?").split(".")[-1], None), getattr(builtins, name, None)
+            if isinstance(a, type) and isinstance(b, type) and issubclass(a, b):
+                return True
+        return False
+
+    for st in exits:
+        n = cfg.node(st)
+        direct = RAISE if isinstance(st, ast.Raise) else EXIT
+        child = st
+        for t in fv.ancestors(st):
+            if isinstance(t, ast.Try) or t.__class__.__name__ == "TryStar":
+                in_final = any(child is x for x in t.finalbody)
+                in_body = any(child is x for x in t.body)
+                if not in_final and t.finalbody:
+                    if g.has_edge(n, direct):
+                        g.remove_edge(n, direct)
+                    g.add_edge(n, ("fin", id(t)))
+                    break
+                if in_body and isinstance(st, ast.Raise) and st.exc is not None and any(catches(h, raise_class(st)) for h in t.handlers):
+                    if g.has_edge(n, direct):
+                        g.remove_edge(n, direct)
+                    break
+            child = t
+    # exceptions raised implicitly by the operations of a statement are not modelled by this rule (they make it undecided, see r6):
+    # drop the engine's "any statement inside a try may raise" edges - the ones into a handler / a finally entry / the exceptional
+    # exit that do not start at a `raise` statement or at the end of a finally block (an exception passing through it)
+    def in_finally(n):
+        st = cfg.stmt.get(n)
+        if st is None and len(n) >= 2 and n[0] == "e":
+            st = cfg.stmt.get(("s", n[1]))
+        if st is None:
+            return False
+        child = st
+        for t in fv.ancestors(st):
+            if (isinstance(t, ast.Try) or t.__class__.__name__ == "TryStar") and any(child is x for x in t.finalbody):
+                return True
+            child = t
+        return False
+
+    for u, v in list(g.edges()):
+        exceptional = v == RAISE or (len(v) >= 1 and v[0] == "fin") or isinstance(cfg.stmt.get(v), ast.ExceptHandler)
+        if exceptional and not isinstance(cfg.stmt.get(u), ast.Raise) and not in_finally(u):
+            g.remove_edge(u, v)
+    return g
+
+
+def _reaches(g, a, b, avoiding) -> bool:
+    avoid = set(avoiding) - {a, b}
+    seen, stack = {a}, [a]
+    while stack:
+        x = stack.pop()
+        for y in g.successors(x):
+            if y == b:
+                return True
+            if y not in seen and y not in avoid:
+                seen.add(y)
+                stack.append(y)
+    return False
+
+
+def r6(ctx):
+    """Decoding is a function of the literal alone: the object the decoding loop appends the bytes to is created by the call - or, when
+    it outlives the call, it is emptied before the loop on every path (or on every way out of the function)."""
+    d = _decoder(ctx)
+    f = d.f
+    text = "output accumulator private to the call"
+    if d.error is not None:
+        ctx.undecided("R6", "ALIAS", f, text, f"the decoding loop is not understood by the path analysis ({d.error}): the object it appends to cannot be located")
+        return
+    recv = sorted(d._shared.get(id(d.loop), {}).get("receivers", ()))
+    if not recv:
+        ctx.undecided("R6", "ALIAS", f, text, "no object the decoding loop appends the decoded bytes to was located")
+        return
+    fv = FuncView.of(f.node)
+    cfg = ctx.cfg(f)
+    if not cfg.has(d.loop):
+        ctx.undecided("R6", "ALIAS", f, text, "the decoding loop is not a statement of the function's control-flow graph")
+        return
+    loopn = cfg.node(d.loop)
+
+    def in_loop(st):
+        return st is d.loop or any(a is d.loop for a in fv.ancestors(st))
+
+    bad, und, good = [], [], []
+    for x in recv:
+        names = set()
+        kinds = _storage(ctx, f, ast.Name(id=x, ctx=ast.Load()), names)
+        # definitions of the name inside the loop (`x += ..` rebinding an immutable value) are the accumulation itself
+        shared = [w for k, w in kinds if k == "shared"]
+        unknown = [w for k, w in kinds if k == "unknown"]
+        if not shared:
+            if unknown:
+                und.append(f"the decoding loop appends to {unknown[0]}; where that object lives is not known")
+            else:
+                good.append("defined as " + ", ".join(f"`{w}`" for w in dict.fromkeys(w for _k, w in kinds)))
+            continue
+        what = shared[0]
+        resets = [st for st in statements(f.node) if _empties(st, names) and cfg.has(st)]
+        rnodes = [cfg.node(st) for st in resets]
+        if any(not in_loop(st) and cfg.dominates(cfg.node(st), loopn) for st in resets):
+            good.append(f"{what}, emptied before the loop on every path")
+            continue
+        writers = []
+        for st in statements(f.node):
+            if not in_loop(st) or st is d.loop or not cfg.has(st):
+                continue
+            if isinstance(st, ast.AugAssign) and isinstance(st.target, ast.Name) and st.target.id == x:
+                writers.append(st)
+            elif isinstance(st, ast.Expr) and any(isinstance(c, ast.Call) and isinstance(c.func, ast.Attribute) and isinstance(c.func.value, ast.Name) and c.func.value.id == x
+                                                  and c.func.attr in ("append", "extend") for c in ast.walk(st.value)):
+                writers.append(st)
+        if not writers:
+            und.append(f"the decoding loop appends to {what}, but the appending statements were not located in the control-flow graph")
+            continue
+        leak = None
+        exits = [st for st in statements(f.node) if isinstance(st, (ast.Raise, ast.Return)) and cfg.has(st)]
+        g = _exit_graph(cfg, fv, exits)
+        for w in writers:
+            wn = cfg.node(w)
+            for out in (RAISE, EXIT):
+                if _reaches(g, wn, out, rnodes):
+                    via = [st for st in exits if cfg.node(st) not in rnodes and (st is w or _reaches(g, wn, cfg.node(st), rnodes))
+                           and _reaches(g, cfg.node(st), out, rnodes) and isinstance(st, ast.Raise if out is RAISE else ast.Return)]
+                    leak = (out, via[0] if via else None)
+                    break
+            if leak:
+                break
+        if leak is not None:
+            out, via = leak
+            how = f"`{src(via)[:70]}`" if via is not None else ("an exception" if out is RAISE else "the end of the function")
+            bad.append(f"the decoding loop appends the decoded bytes to {what}: that object outlives the call and is shared by all calls; it is not emptied before the loop, and "
+                       f"a call can leave the function through {how} after appending without emptying it"
+                       + (f" (it is emptied only at `{src(resets[0])[:40]}`)" if resets else " (it is never emptied)")
+                       + " - the next literal is decoded with those stale bytes in front, so the result is no longer a function of the literal alone")
+            continue
+        covered = False
+        for t in fv.ancestors(d.loop):
+            if isinstance(t, ast.Try) and any(st is r or any(a is r for a in ast.walk(st)) for st in t.finalbody for r in resets):
+                covered = True
+        if covered:
+            good.append(f"{what}, emptied in a `finally` that covers the loop")
+        else:
+            und.append(f"the decoding loop appends to {what}, which outlives the call; every explicit way out of the function empties it, but exceptions raised by the "
+                       f"operations inside the loop (int(), ord() ...) are not modelled and no `finally` covers the loop")
+    _verdict(ctx, "R6", "ALIAS", f, text, bad, und,
+             "the object the decoding loop appends to is created by the call (or emptied before the loop): " + "; ".join(dict.fromkeys(good)), d.loop)
 
 
 # ============================================================================================ whole-text rewriting around the decoder
@@ -3216,7 +3696,13 @@ def run(ctx):
         "own on a path that returns before the loop, are judged against the token structure of a literal (lemma L8: a pattern backslash + X "
         "matches the second half of an escaped backslash followed by a plain X; after backslash backslash -> backslash the produced backslash "
         "is scanned again), with the path's `<constant> in <text>` conditions checked against the witness content; a return that bypasses the "
-        "loop without decoding needs conditions that exclude every escape. The STRING regex is inspected on its "
+        "loop without decoding needs conditions that exclude every escape. The accumulator (R6): the object the decoding loop appends the bytes to (located "
+        "by role) must be created by the call - a display, a constructor call, an immutable constant that `+=` rebinds; when it outlives the call "
+        "(a module-level object, an attribute of one, a mutable parameter default) it must be emptied before the loop on every path (dominance) "
+        "or in a `finally` covering the loop, otherwise a call that leaves through an explicit raise / return after appending keeps its bytes for "
+        "the next literal and decoding is no longer a function of the literal alone (CFG reachability avoiding the emptying statements). "
+        "A decoder that compares the iterator's cursor with the length itself instead of calling has_next() is normalised to the same availability "
+        "events (linear terms over the cursor and the length, lemma L14; has_next's own definition is read off its syntax tree). The STRING regex is inspected on its "
         "parsed syntax tree (opening quote, lazy body whose character class covers every code point - interval cover or complementary "
         "categories -, closing quote preceded by an even run of backslashes)."
     )
@@ -3231,7 +3717,12 @@ def run(ctx):
         "the STRING terminal matches every character (R4) and the decoder returns ord(c) & 0xFF for it",
         "bytes appended through a codec other than latin-1 / utf-8 / ascii, with an explicit error handler, or for more than one character "
         "(reported as undecided)",
-        "decoders that carry state between characters, unroll nested loops, or hand the iterator to unmodelled code (reported as undecided)",
+        "decoders that carry state between characters, unroll nested loops, or hand the iterator to unmodelled code (reported as undecided); "
+        "`==` / `!=` tests on the iterator's cursor, cursor arithmetic other than + / - constants, a has_next() of another shape than "
+        "`cursor + n <= len(buffer)` (reported as undecided); that next() / __next__ advance the cursor by what they return is assumed (iterator protocol)",
+        "state other than the output accumulator that could survive a call (caches, a shared iterator); a shared accumulator that only an "
+        "exception raised implicitly inside the loop could leave non-empty (reported as undecided); accumulators handed in by the caller "
+        "or produced by a package function (reported as undecided); re-entrancy / threads",
         "hex digits converted by anything but int(.., 16), a constant table / digit string of the module (one digit or a pair) or the nibble "
         "arithmetic of lemma L9; exceptions of operations kept symbolic (their handlers are not walked)",
         "paths that return before the decoding loop with a conversion of an escape-free text (reported as undecided), whole-text rewrites other "
@@ -3269,9 +3760,15 @@ def run(ctx):
         "lemma L9: int(A, 16) * 16**len(B) + int(B, 16) == int(A + B, 16) (also with << and |); L10: int(s, 16) ignores the case of s; L11: index()/find() "
         "of a one-character string give the position of its first occurrence",
         "lemma L6: a regex category and its negation partition the characters; `.` matches every character except code 10 unless DOTALL",
+        "lemma L14 (integers): a < b <=> a + 1 <= b, a >= b <=> not a < b; StringIterator.has_next(n) is `cursor + n <= len(buffer)` as written in the "
+        "class (checked on its syntax tree together with: the cursor is only ever set to 0 or advanced, the buffer holds one entry per character "
+        "of the constructor argument); next(n) / __next__ advance the cursor by the number of characters they return (iterator protocol, assumed)",
+        "R6: a display, comprehension or call of a constructor / library function yields a new object; an object bound at module level, an attribute "
+        "of one and a parameter default live as long as the module; list / bytearray .clear(), `del x[:]` and `x[:] = []` leave the object empty",
     ]
     r1(ctx)
     r2(ctx)
     r3(ctx)
     r4(ctx)
     r5(ctx)
+    r6(ctx)
